@@ -83,6 +83,7 @@ type ExtractRec struct {
 	NPkgs     int
 	NilPkg    bool
 	Panicked  bool // Extract panicked (contained by the engine or not)
+	FaultHit  bool // a planned fault fired during this call (on the input or on a file it opened)
 	Reads     int
 	Opens     int
 	AllocMB   int64    // growth of runtime.MemStats.Sys during the call
@@ -116,6 +117,7 @@ type Obs struct {
 	HangExt                                            string
 	HangKind                                           string // watchdog | runaway-memory
 	CancelOnFired                                      bool
+	EngineOpenFaults                                   map[string]int // path -> planned faults that hit the engine's own open/fstat of it
 	HistFP                                             string
 	Events                                             int
 	Fired                                              map[string]int
@@ -562,6 +564,26 @@ wait:
 		}
 	}
 	h.fsMu.Lock()
+	// which Extract call was running when a planned fault fired
+	cur := -1
+	next := 0
+	for _, e := range rec.Events {
+		switch {
+		case e.Op == "extract" && e.Res == "begin":
+			cur = next
+			next++
+		case e.Op == "extract":
+			cur = -1
+		case e.Fault && cur >= 0 && cur < len(obs.Extracts):
+			obs.Extracts[cur].FaultHit = true
+		case e.Fault && cur < 0 && (e.Op == "open" || e.Op == "fstat"):
+			// the engine's own open of a required file failed: no Extract call for that extractor
+			if obs.EngineOpenFaults == nil {
+				obs.EngineOpenFaults = map[string]int{}
+			}
+			obs.EngineOpenFaults[e.Path]++
+		}
+	}
 	obs.HistFP = historyFP(rec.Events)
 	h.fsMu.Unlock()
 	obs.Events = len(rec.Events)
